@@ -171,7 +171,7 @@ static MT: std::sync::OnceLock<tokio::runtime::Runtime> = std::sync::OnceLock::n
 pub fn block_on_mt<F: std::future::Future>(f: F) -> F::Output {
     MT.get_or_init(|| {
         tokio::runtime::Builder::new_multi_thread()
-            .worker_threads(8)
+            .worker_threads(48)
             .max_blocking_threads(2048)
             .enable_all()
             .build()
